@@ -72,11 +72,15 @@ def const_bool(test: ast.AST):
 
 
 def guard_key(test: ast.AST):
-    """(key text, polarity) of a test; `not X` shares X's key with negative polarity."""
+    """(key text, polarity) of a test; `not X` shares X's key with negative polarity, `a != b` shares the key of `a == b`."""
     pol = True
     while isinstance(test, ast.UnaryOp) and isinstance(test.op, ast.Not):
         pol = not pol
         test = test.operand
+    if isinstance(test, ast.Compare) and len(test.ops) == 1 and isinstance(test.ops[0], (ast.NotEq, ast.IsNot, ast.NotIn)):
+        op = {ast.NotEq: ast.Eq, ast.IsNot: ast.Is, ast.NotIn: ast.In}[type(test.ops[0])]()
+        test = ast.Compare(left=test.left, ops=[op], comparators=test.comparators)
+        pol = not pol
     return norm(test), pol
 
 
@@ -151,6 +155,32 @@ class DefAssign:
             elif isinstance(n, ast.ExceptHandler) and n.name:
                 loc.add(n.name)
         return loc - glob
+
+    def guard_value(self, test):
+        """True / False / None for a test under the assumed guards (conjunctions and disjunctions of assumed guards included)"""
+        cb = const_bool(test)
+        if cb is not None:
+            return cb
+        k, pol = guard_key(test)
+        v = self.assume.get(k)
+        if v is not None:
+            return v == pol
+        if isinstance(test, ast.UnaryOp) and isinstance(test.op, ast.Not):
+            w = self.guard_value(test.operand)
+            return None if w is None else (not w)
+        if isinstance(test, ast.BoolOp):
+            vals = [self.guard_value(x) for x in test.values]
+            if isinstance(test.op, ast.And):
+                if any(x is False for x in vals):
+                    return False
+                if all(x is True for x in vals):
+                    return True
+            else:
+                if any(x is True for x in vals):
+                    return True
+                if all(x is False for x in vals):
+                    return False
+        return None
 
     def run(self):
         a = self.fn.args
@@ -268,11 +298,7 @@ class DefAssign:
             return da
         if isinstance(s, ast.If):
             self.use(s.test, da)
-            cb = const_bool(s.test)
-            k, pol = guard_key(s.test)
-            v = self.assume.get(k)
-            if cb is None and v is not None:
-                cb = (v == pol)
+            cb = self.guard_value(s.test)
             if cb is True:
                 return self.block(s.body, da)
             if cb is False:
@@ -365,16 +391,19 @@ def correlated_keys(fn: ast.FunctionDef, limit=4):
     return keys[:limit] if limit else keys
 
 
-def definite_assignment(fn: ast.FunctionDef):
+def definite_assignment(fn: ast.FunctionDef, domain: dict | None = None):
     """Uses of locals that are unassigned on some path of the guard-correlated flow graph.
-    A use is reported only if it is unassigned under at least one consistent assignment of the correlated guards."""
-    keys = correlated_keys(fn)
+    A use is reported only if it is unassigned under at least one consistent assignment of the correlated guards.
+    `domain`: guards whose truth value is fixed by the property's quantifier (e.g. {'verbose': False}: progress output is outside every property)."""
+    domain = domain or {}
+    keys = [k for k in correlated_keys(fn) if k not in domain]
     loops = LoopInfo(fn)
 
     def explore(ks):
         out = {}
         for combo in itertools.product([True, False], repeat=len(ks)):
             assume = dict(zip(ks, combo))
+            assume.update(domain)
             for u in DefAssign(fn, assume, set(), loops).run():
                 out.setdefault((u.name, u.node.lineno, u.node.col_offset), u)
         return out
@@ -382,7 +411,7 @@ def definite_assignment(fn: ast.FunctionDef):
     if found:
         # a function with more repeated guards than the enumeration budget: a use stays reported only if it is also unassigned when each
         # further repeated guard is held consistent (one at a time) - the guard that pairs the definition with the use may be any of them
-        for extra in [k for k in correlated_keys(fn, limit=0) if k not in keys]:
+        for extra in [k for k in correlated_keys(fn, limit=0) if k not in keys and k not in domain]:
             more = explore(keys + [extra])
             found = {k: v for k, v in found.items() if k in more}
             if not found:
@@ -488,3 +517,87 @@ def var_signature(fn: ast.AST, name: str) -> str:
                 if isinstance(el, ast.Name) and el.id == name:
                     sigs.add("comp:" + mask(n.iter)[:50])
     return " | ".join(sorted(sigs))
+
+
+# --------------------------------------------------------------------------- straight-line paths of a function body
+
+def simple_paths(stmts, limit=512):
+    """Every path through a statement list as (list of simple statements in execution order, exit) with exit in {'fall', 'return', 'raise',
+    'break', 'continue'}.  `if` forks (constant tests are folded), loop bodies are taken zero times and once, `try` takes its body (and each
+    handler after it), `with` is transparent.  Enough for must-pass-through rules over functions without deep loop nests; more than `limit` paths
+    raise ValueError (the caller reports the function as not analysable instead of guessing)."""
+    out = []
+
+    def go(todo, acc):
+        if len(out) > limit:
+            raise ValueError("too many paths")
+        if not todo:
+            out.append((acc, "fall"))
+            return
+        s, rest = todo[0], todo[1:]
+        if isinstance(s, ast.If):
+            cb = const_bool(s.test)
+            if cb is not False:
+                go(list(s.body) + rest, acc + [s.test])
+            if cb is not True:
+                go(list(s.orelse) + rest, acc + [s.test])
+            return
+        if isinstance(s, (ast.For, ast.While)):
+            go(rest, acc + [s.iter if isinstance(s, ast.For) else s.test])
+            inner = []
+            try:
+                for p, ex in simple_paths(list(s.body), limit):
+                    inner.append((p, ex))
+            except ValueError:
+                raise
+            for p, ex in inner:
+                if ex in ("fall", "continue", "break"):
+                    go(rest, acc + [s.iter if isinstance(s, ast.For) else s.test] + p)
+                else:
+                    out.append((acc + p, ex))
+            return
+        if isinstance(s, ast.With):
+            go(list(s.body) + rest, acc + [i.context_expr for i in s.items])
+            return
+        if isinstance(s, ast.Try):
+            go(list(s.body) + list(s.orelse) + list(s.finalbody) + rest, acc)
+            for h in s.handlers:
+                go(list(h.body) + list(s.finalbody) + rest, acc)
+            return
+        if isinstance(s, ast.Return):
+            out.append((acc + [s], "return"))
+            return
+        if isinstance(s, ast.Raise):
+            out.append((acc + [s], "raise"))
+            return
+        if isinstance(s, ast.Break):
+            out.append((acc, "break"))
+            return
+        if isinstance(s, ast.Continue):
+            out.append((acc, "continue"))
+            return
+        go(rest, acc + [s])
+
+    go(list(stmts), [])
+    return out
+
+
+def quantifier_domain(fn: ast.FunctionDef) -> dict:
+    """Guards fixed by every property's quantifier, recognised by what they are rather than by how they are called:
+       - a verbosity flag: a parameter tested by an `if` whose body prints (progress output is outside every property) -> False;
+       - `<parameter> == 'fro'`: the undocumented truncation option of the AMEn routines -> False."""
+    a = fn.args
+    params = {x.arg for x in a.posonlyargs + a.args + a.kwonlyargs}
+    dom = {}
+    for n in ast.walk(fn):
+        if isinstance(n, ast.If):
+            t = n.test
+            names = [t] if isinstance(t, ast.Name) else ([v for v in t.values if isinstance(v, ast.Name)] if isinstance(t, ast.BoolOp) and isinstance(t.op, ast.And) else [])
+            prints = any(isinstance(x, ast.Call) and isinstance(x.func, ast.Name) and x.func.id == "print" for st in n.body for x in ast.walk(st))
+            for nm in names:
+                if nm.id in params and prints:
+                    dom[nm.id] = False
+        if isinstance(n, ast.Compare) and len(n.ops) == 1 and isinstance(n.ops[0], (ast.Eq, ast.NotEq)) and isinstance(n.left, ast.Name) and n.left.id in params \
+                and isinstance(n.comparators[0], ast.Constant) and n.comparators[0].value == "fro":
+            dom[norm(ast.Compare(left=n.left, ops=[ast.Eq()], comparators=n.comparators))] = False
+    return dom
